@@ -289,9 +289,11 @@ def fill(t, **kw):
     return t
 
 
-def emit_workspace(grammars, getters, outdir, nbins, skip=()):
+def emit_workspace(grammars, getters, outdir, nbins, skip=(), prefix=PREFIX):
     """`getters[(gid, variant)]` = model listing; every listed accessor is called.  `skip` = set of
-    (gid, variant) that the generator itself rejects (reported by the caller)."""
+    (gid, variant) that the generator itself rejects (reported by the caller).  `prefix` names the binary
+    crates: it must differ between workspaces that share one CARGO_TARGET_DIR (one per tier), otherwise the
+    binaries of one workspace overwrite those of the other in target/debug while cargo still thinks they are fresh."""
     os.makedirs(outdir, exist_ok=True)
     bins = [[] for _ in range(nbins)]
     loads = [0] * nbins
@@ -305,12 +307,12 @@ def emit_workspace(grammars, getters, outdir, nbins, skip=()):
     for b, glist in enumerate(bins):
         if not glist:
             continue
-        d = os.path.join(outdir, f"{PREFIX}{b}")
+        d = os.path.join(outdir, f"{prefix}{b}")
         os.makedirs(os.path.join(d, "src"), exist_ok=True)
-        members.append(f"{PREFIX}{b}")
+        members.append(f"{prefix}{b}")
         with open(os.path.join(d, "Cargo.toml"), "w") as f:
             f.write(f'''[package]
-name = "{PREFIX}{b}"
+name = "{prefix}{b}"
 version = "0.0.0"
 edition = "2021"
 [dependencies]
@@ -345,7 +347,7 @@ pest = "=2.7.14"
             open(path, "w").write(new)
     # stale members of an earlier, larger run
     for name in os.listdir(outdir):
-        if name.startswith(PREFIX) and name not in members:
+        if name.startswith(PREFIX) and name not in members and os.path.isdir(os.path.join(outdir, name)):
             subprocess.call(["rm", "-rf", os.path.join(outdir, name)])
     ws = "[workspace]\nresolver = \"2\"\nmembers = [" + ", ".join(f'"{m}"' for m in members) + "]\n" + corpus.PROFILE
     open(os.path.join(outdir, "Cargo.toml"), "w").write(ws)
